@@ -4,7 +4,7 @@ from __future__ import annotations
 from collections import Counter
 
 from harness import rcsim
-from harness.common import Ctx, Driver, compare_with_model, load_corpus
+from harness.common import Ctx, Driver, compare_with_model, load_corpus, shrink_list
 
 ID = "C10"
 SIGS = {"two-connectors", "attempt-after-shutdown", "waiter-wrong-error", "waiter-unbounded", "retries-ended", "busy-loop", "backoff-too-short", "backoff-too-long", "address-excluded", "immediate-retry-same-address"}
@@ -44,6 +44,7 @@ def cases_for(ctx):
 def run_cases(ctx: Ctx, driver: Driver, pid, sigs, cases):
     impl, lines, cs = [], [], []
     cls = Counter()
+    minimized = {}
     maxv = 0.0
     for i, (hosts, events, kind) in enumerate(cases):
         sim = rcsim.run_scenario(hosts, events, seed=ctx.seed * 1000003 + i)
@@ -62,7 +63,14 @@ def run_cases(ctx: Ctx, driver: Driver, pid, sigs, cases):
         for sig, text in sim.problems:
             if sig in sigs and sig not in seen:
                 seen.add(sig)
-                ctx.violation(f"ip/{sig}", text, case)
+                vcase = dict(case)
+                if sig not in minimized and len(minimized) < 4:
+                    # shrink the first history of each kind to a minimal one that still fails the same way
+                    small = shrink_list(events, lambda evs, sig=sig: any(s2 == sig for s2, _ in rcsim.run_scenario(hosts, evs, seed=vcase["seed"]).problems))
+                    minimized[sig] = small
+                    vcase["minimized_events"] = small
+                    text = text + f" [minimal history: {' '.join(small)}]"
+                ctx.violation(f"ip/{sig}", text, vcase)
         cs.append(case)
         impl.append(" ; ".join(x.strip() for x in sim.lines))
         lines.append(rcsim.model_line(hosts, events))
